@@ -70,7 +70,7 @@ class Run:
         path = os.path.join(self.replay_dir, _slug(key) + ".json")
         body = {"property": self.pid, "obligation": key, "what": what, "failing_input_found": failing_input_found}
         body.update(detail)
-        with open(path, "w", encoding="utf-8") as f:
+        with open(path, "w", encoding="utf-8", errors="backslashreplace") as f:  # a witness may contain lone surrogates: the report must still be written
             json.dump(body, f, indent=1, default=str, ensure_ascii=False)
         self.violations.append({"key": key, "what": what, "replay": path, "found": failing_input_found})
         tail = "" if failing_input_found else " no-failing-input-found"
@@ -116,12 +116,13 @@ class Run:
         }
         evdir = os.environ.get("VERIF_EVIDENCE_DIR") or os.path.join(VERIF, "evidence")
         os.makedirs(evdir, exist_ok=True)
-        with open(os.path.join(evdir, f"{self.pid}.json"), "w", encoding="utf-8") as f:
+        with open(os.path.join(evdir, f"{self.pid}.json"), "w", encoding="utf-8", errors="backslashreplace") as f:
             json.dump(ev, f, indent=1, default=str, ensure_ascii=False)
-        if self.crashes:
-            code = EXIT_CRASH
-        elif self.violations:
+        if self.violations:
+            # a violation was replayed / re-decided on its own: a crash in another part of the same run (reported above as CHECKER-ERROR) does not take it back
             code = EXIT_VIOLATION
+        elif self.crashes:
+            code = EXIT_CRASH
         elif self.undecided:
             code = EXIT_UNDECIDED
         else:
